@@ -287,6 +287,24 @@ func runScenario(f fault) (e *env, trace []string, probeErr string, censusLeft [
 	pos := 0
 	fired, fired2 := false, false
 	probing := false // set when the scenario is over: faults and the trace belong to the scenario phase only
+	// a call WITHOUT a deadline, issued the moment the link is made to die: its bound is the recovery of the connection
+	// (the request is sent again after the reconnect), judged after the probe phase
+	var connRef *iscp.Conn
+	noDeadlineDone := make(chan error, 4)
+	noDeadlineIssued := 0
+	noDeadline := func() {
+		mu.Lock()
+		cn := connRef
+		if cn != nil {
+			noDeadlineIssued++
+		}
+		mu.Unlock()
+		if cn != nil {
+			go func() {
+				noDeadlineDone <- cn.SendBaseTime(context.Background(), &message.BaseTime{Name: "no-deadline", BaseTime: time.Unix(2, 0).UTC()})
+			}()
+		}
+	}
 	w.B.OnMsg = func(lc *broker.LinkCtx, m message.Message, unrel bool) bool {
 		if isPing(m) {
 			return false
@@ -382,16 +400,22 @@ func runScenario(f fault) (e *env, trace []string, probeErr string, censusLeft [
 			}
 			return true
 		case "disconnect-sever":
+			noDeadline()
 			lc.L.Fail(memnet.Sever)
 		case "disconnect-wfail":
+			noDeadline()
 			lc.L.Fail(memnet.WFail)
 		case "disconnect-reof":
+			noDeadline()
 			lc.L.Fail(memnet.REOF)
 		case "disconnect-blackhole":
+			noDeadline()
 			lc.L.Fail(memnet.Blackhole)
 		}
 		return true
 	}
+	// closing a transport whose link is already broken reports an error (after closing), as real transports do
+	w.Net.CloseFails = "broken"
 	w.Start()
 	conn, err := w.Connect(iscp.WithConnPingInterval(pingIv), iscp.WithConnPingTimeout(pingTo))
 	if err != nil {
@@ -400,6 +424,9 @@ func runScenario(f fault) (e *env, trace []string, probeErr string, censusLeft [
 		return
 	}
 	e.conn = conn
+	mu.Lock()
+	connRef = conn
+	mu.Unlock()
 	scenarios[f.Scenario](e)
 	mu.Lock()
 	probing = true
@@ -469,6 +496,19 @@ func runScenario(f fault) (e *env, trace []string, probeErr string, censusLeft [
 		}
 		if pe.hung != nil {
 			e.hung = pe.hung
+		}
+		// the calls without a deadline that were in flight when the link died have returned by now
+		mu.Lock()
+		n := noDeadlineIssued
+		mu.Unlock()
+		if probeErr == "" && e.hung == nil {
+			for i := 0; i < n; i++ {
+				select {
+				case <-noDeadlineDone:
+				case <-time.After(probeT):
+					probeErr = fmt.Sprintf("a request without a deadline that was issued when the link died has not returned %v after the broker became cooperative again", probeT)
+				}
+			}
 		}
 	}
 	if e.hung == nil {
@@ -545,7 +585,7 @@ func TestC08NoHang(t *testing.T) {
 		}
 	}
 	meta := vrun.Meta{Property: "C08", Workload: "TestC08NoHang", Total: len(faults), Exhaustive: !vrun.LoadEnv().Thorough(),
-		Rule: "fault enumeration: 12 API scenarios (open/write/flush/close of both stream kinds, reads, reads of chunks that refer to aliases the peer never announced, metadata, the three call APIs, receive inboxes, connection close with streams open) x every position of the scenario's fault-free client message trace x broker behaviour {drop, delay beyond the bound, misaddress by request id, by stream alias, by unsubscribed source node, disconnect in 4 modes (sever, write-fail, read-EOF, blackhole), for calls also: answered twice and never acknowledged}; every call carries a 5 s context deadline (virtual), close timeout 2 s, keepalive 1 s + 1 s. Oracle on the virtual clock: each call returns no later than its deadline + 1 ms; afterwards, with a cooperative broker, a probe set (open/write/close upstream, open/close downstream, metadata, an incoming call through ReceiveCall) completes within 120 virtual seconds; a case that stalls in real time with a library goroutine parked on a mutex is a leaked lock. the thorough tier adds 6000 seed-drawn PAIRS of faults at two positions of one scenario to the complete single-fault grid. non-trivial = the fault fired (position reached); distinct = (scenario, positions, behaviours)",
+		Rule: "fault enumeration: 12 API scenarios (open/write/flush/close of both stream kinds, reads, reads of chunks that refer to aliases the peer never announced, metadata, the three call APIs, receive inboxes, connection close with streams open) x every position of the scenario's fault-free client message trace x broker behaviour {drop, delay beyond the bound, misaddress by request id, by stream alias, by unsubscribed source node, disconnect in 4 modes (sever, write-fail, read-EOF, blackhole), for calls also: answered twice and never acknowledged}; every call carries a 5 s context deadline (virtual), close timeout 2 s, keepalive 1 s + 1 s; with the disconnect behaviours one further request WITHOUT a deadline is issued the moment the link dies (closing a transport whose link is broken reports an error). Oracle on the virtual clock: each call returns no later than its deadline + 1 ms; afterwards, with a cooperative broker, a probe set (open/write/close upstream, open/close downstream, metadata, an incoming call through ReceiveCall) completes within 120 virtual seconds; a case that stalls in real time with a library goroutine parked on a mutex is a leaked lock. the thorough tier adds 6000 seed-drawn PAIRS of faults at two positions of one scenario to the complete single-fault grid. non-trivial = the fault fired (position reached); distinct = (scenario, positions, behaviours)",
 		Assumptions: []string{"the governing bound of every judged call is its own context deadline (calls without a deadline on a live connection have no bound and are not judged)",
 			"the path-complete lock-release lemma of the statement is out of reach of runtime monitoring: only locks leaked on executed paths are detected"}}
 	vrun.Loop(t, meta, 0, func(c *vrun.Case) vrun.Result {
